@@ -716,4 +716,21 @@ theorem Inv.read_progress {d wr del} (h : Inv d wr del) (n : Nat) (hn : 1 ≤ n)
   · right
     simp only [ne_eq, hu, not_false_eq_true, if_true]
     exact ⟨_, rfl, List.length_pos_iff.mp (take_ne_nil hu hn)⟩
+theorem chunksOf_append (a b : List (Bytes × Bytes)) : chunksOf (a ++ b) = chunksOf a ++ chunksOf b := by
+  simp [chunksOf, List.flatMap_append]
+
+theorem Inv.afterHandshake (key k : Nat) : Inv (Dir.afterHandshake key k) [] [] :=
+  ⟨rfl, rfl, [], .nil _, rfl, rfl⟩
+
+/-- reader invariant at the start of the session: the handshake frames have been consumed -/
+theorem RInv.session (key : Nat) (hs ds : List (Bytes × Bytes)) :
+    RInv key 0 (chunksOf (hs ++ ds)) (chunksOf hs).length ⟨key, nonceAt 0 (chunksOf hs).length, []⟩ (chunksOf hs).flatten := by
+  refine ⟨rfl, rfl, by simp [chunksOf_append], ?_⟩
+  simp [chunksOf_append]
+
+theorem take_session (hs ds : List (Bytes × Bytes)) (k : Nat) :
+    ((chunksOf (hs ++ ds)).take ((chunksOf hs).length + k)).flatten =
+      (chunksOf hs).flatten ++ ((chunksOf ds).take k).flatten := by
+  rw [chunksOf_append, List.take_length_add_append, List.flatten_append]
+
 end Canopy.Transport
